@@ -332,8 +332,32 @@ def ob_sig_table(run, oid):
         halves = [f for (s2, f) in SIG_TABLE if s2 == st]
         if len(halves) == 2:
             tt = paths.bool_truth_table(b, prog)
-            ok = tt is not None and len(tt[0]) == 2 and all(v == (a[0] and a[1]) for a, v in tt[1].items())
-            o.check(bool(ok), "%s::check_sig|both-halves" % st, "the verdict is the conjunction of both halves", b.span)
+            ok = tt is not None
+            if ok:
+                terms, table = tt
+
+                def satisfied(f, asg):
+                    # the half stored in field f is absent, or its verification succeeded (any spelling)
+                    for i, t in enumerate(terms):
+                        fs = [n for (ow, n) in mir.fields_in(t if not (isinstance(t, tuple) and t and t[0] in ("is_some", "eq", "lt")) else t[1][0]) if ow.endswith(st)]
+                        if f not in fs:
+                            continue
+                        if isinstance(t, tuple) and t and t[0] == "is_some":
+                            if not asg[i]:
+                                return True
+                        elif isinstance(t, tuple) and t and t[0] == "call" and (t[1].endswith("is_none_or") or t[1].endswith("::verify")):
+                            if asg[i]:
+                                return True
+                    return False
+                trues = [a for a, v in table.items() if v]
+                ok = bool(trues) and all(satisfied(f, a) for a in trues for f in halves)
+                # and a failed verification of a present half makes the verdict false
+                for i, t in enumerate(terms):
+                    if isinstance(t, tuple) and t and t[0] == "call" and (t[1].endswith("is_none_or") or t[1].endswith("::verify")):
+                        ok = ok and not any(v and not a[i] and not any(
+                            isinstance(terms[j], tuple) and terms[j][0] == "is_some" and not a[j] and set(n for (_o, n) in mir.fields_in(terms[j][1][0])) & set(n for (_o, n) in mir.fields_in(t))
+                            for j in range(len(terms))) for a, v in table.items())
+            o.check(bool(ok), "%s::check_sig|both-halves" % st, "the verdict is true only when each half is absent or verified (conjunction of both halves)", b.span)
         else:
             vs = [c for c in b.calls_to(AGG + "::verify")]
             o.check(len(vs) == 1 and vs[0].dst["l"] == 0, "%s::check_sig|verdict" % st, "the verdict is the verify result", b.span)
